@@ -21,7 +21,10 @@ RULE = (
     "UnitSystemManager.ConvertToCurrent/ConvertScalarToCurrent with and without a current mapping. Metadata: "
     "re-expressed objects keep category and quantity type. Default oracle: for every category and every unit of "
     "its type Scalar/FractionScalar(category, unit=v) carries Convert(default_unit->v, default_value). Own-unit: "
-    "GetValue(own unit) returns the stored value for simple, derived and empty quantities. Non-trivial = u!=v, "
+    "GetValue(own unit) returns the stored value for simple, derived and empty quantities. Second configuration: "
+    "after the shipped table, a small project database that reuses its symbols with other factors is used in the "
+    "same process and all its pairs x categories go through all routes (nothing may be remembered per symbol "
+    "across databases). Non-trivial = u!=v, "
     "conversion not identity, x!=0, container non-empty; distinct key = (route, qt, u, v, category)."
 )
 ASSUMPTIONS = [
@@ -492,8 +495,62 @@ def run_shard(spec, ctx):
 
         core.hunt(ctx, lambda: own, spec["seed"] * 1000 + 500 + spec["shard"], 150 if tier == "quick" else 3000, shrink=False)
 
+    # a second, different database used later in the same process (all pairs, all categories, all routes)
+    if spec["part"] < 2:
+        variant_sweep(ctx, [1.0, -2.5, 1e3 + spec["seed"]], [3, -7])
+        ctx.exhaustive["second database sharing symbols with the shipped one (all pairs)"] = "all"
+
+
+def variant_db():
+    """A second database in the same process whose units share *symbols* with the shipped table but
+    not their factors (project-specific tables do this): results must come from the database in use,
+    never from something remembered per symbol."""
+    from barril.units import UnitDatabase
+
+    db = UnitDatabase()
+    db.AddUnitBase("length", "meters", "m")
+    db.AddUnit("length", "centimeters", "cm", "%f * 50.0", "%f / 50.0")
+    db.AddUnit("length", "feet", "ft", "%f * 2.0", "%f / 2.0")
+    db.AddUnit("length", "kilometers", "km", lambda x: x / 250.0, lambda x: x * 250.0)
+    db.AddUnitBase("temperature", "Kelvin", "K")
+    db.AddUnit("temperature", "Celsius", "degC", "%f - 100.0", "%f + 100.0")
+    db.AddUnit("temperature", "Fahrenheit", "degF", "%f * 2.0 - 50.0", "(%f + 50.0) / 2.0")
+    db.AddUnitBase("time", "seconds", "s")
+    db.AddUnit("time", "minutes", "min", "%f / 10.0", "%f * 10.0")
+    db.AddUnit("time", "hours", "h", "%f / 100.0", "%f * 100.0")
+    db.AddCategory("length", "length")
+    db.AddCategory("depth", "length", default_unit="ft")
+    db.AddCategory("temperature", "temperature")
+    db.AddCategory("time", "time")
+    return db
+
+
+def variant_sweep(ctx, xs, ints):
+    vdb = variant_db()
+    with env.pushed(vdb):
+        vch = Checker(ctx, vdb)
+        for qt in sorted(vdb.quantity_types):
+            us = [i.unit for i in vdb.quantity_types[qt]]
+            for u in us:
+                for v in us:
+                    for cat in vch.cats[qt]:
+                        vch.check_pair({"qt": qt, "u": u, "v": v, "cat": cat, "xs": xs, "ints": ints, "config": "variant"})
+                        ctx.cls("variant_database_pairs")
+
 
 def replay(case, ctx):
+    if case.get("config") == "variant":
+        # the shipped table is used first in the same process, as in the sweep
+        db = env.new_db("posc")
+        with env.pushed(db):
+            warm = core.Ctx(PID, "quick", 0)
+            wc = Checker(warm, db)
+            if case["u"] in db.unit_to_unit_info and case["v"] in db.unit_to_unit_info:
+                wc.check_pair(dict(case, cat=case["qt"], config="posc"))
+        vdb = variant_db()
+        with env.pushed(vdb):
+            Checker(ctx, vdb).check_pair(case)
+        return ["%s: %s" % (k, v["msg"]) for k, v in ctx.violations.items()]
     db = env.new_db("posc")
     with env.pushed(db):
         ch = Checker(ctx, db)
